@@ -11,7 +11,7 @@ REQUIRED_THEOREMS = [
     'OpusProps.C09.plc_duration', 'OpusProps.C09.plc_not_multiple', 'OpusProps.C09.plc_chunking',
     'OpusProps.C09.fec_degrades_to_plc', 'OpusProps.C09.fec_call_shape', 'OpusProps.C09.fec_frame_layers',
     'OpusProps.C09.lbrr_flag_position', 'OpusProps.C09.plc_gains_contract', 'OpusProps.C09.plc_gains_first_frame',
-    'OpusProps.C09.loss_duration_saturates',
+    'OpusProps.C09.loss_duration_saturates', 'OpusProps.C09.plc_kind',
 ]
 RULE = ('loss patterns x call shapes on real encoder output: for 16 configurations (SILK NB/MB/WB 10-60 ms, hybrid SWB/FB 10/20 ms, '
         'CELT 2.5-20 ms, automatic mode switching, stereo FEC streams whose stereo image keeps changing, streams switched SILK -> CELT '
@@ -25,7 +25,7 @@ RULE = ('loss patterns x call shapes on real encoder output: for 16 configuratio
 NOT_COVERED = [
     'the audio clauses — level bound of the concealed signal, decay under sustained loss, re-convergence, FEC vs. PLC accuracy — '
     'are float DSP: not modelled, SEARCHED on the implementation only (twin decoders, calibrated thresholds)',
-    'CELT pitch / noise PLC interior and its `loss_duration >= 40` switch to noise PLC (only the counter itself is modelled)',
+    'CELT pitch / noise PLC interior (the choice between them — loss_duration >= 40, start band, skip_plc — IS modelled and proved)',
     'SILK PLC beyond the gain scalars (pitch-lag drift, LPC bandwidth expansion, CNG)',
     'encoder side of LBRR (silk/enc_API.c): covered only through the packets it produces',
 ]
@@ -35,7 +35,6 @@ ASSUMPTIONS = c01.ASSUMPTIONS + [
 TRUSTED = c01.TRUSTED + ['tools/props/C09_calib.json: thresholds of the audio oracles, calibrated on the unchanged tree at 8 seeds']
 UNPROVED = [
     'plc_level_bound / plc_decay / reconvergence / fec_accuracy (float DSP; searched on the implementation only)',
-    'celt_noise_plc_from_40 (the `loss_duration >= 40` decision is inside celt_decode_lost, not modelled)',
 ]
 LEVEL_TEXT = ('proof of the control and integer parts, search for the audio parts: for every decoder state satisfying the invariant '
               '(hence after every loss pattern) and every DSP behaviour within the oracle contracts a NULL-packet / FEC request '
@@ -44,7 +43,8 @@ LEVEL_TEXT = ('proof of the control and integer parts, search for the audio part
               'packet_frame_size + one LBRR frame at the end of the buffer or plain concealment exactly when :761 says so; the bit '
               'opus_packet_has_lbrr tests is the LBRR flag a fresh range decoder yields; the regenerated SILK PLC attenuation '
               'constants are < 1 (Q15) so taps and random scale shrink per lost frame; CELT loss_duration saturates at 10000 and '
-              'is reset by a decoded frame. Level, decay, re-convergence and FEC accuracy of the SIGNAL are searched with twin '
+              'is reset by a decoded frame, and which lost CELT frame gets the pitch-based or the noise concealment is determined '
+              'for every loss pattern (noise from loss_duration 40 on, in hybrid mode, and until two packets in a row were decoded). Level, decay, re-convergence and FEC accuracy of the SIGNAL are searched with twin '
               'decoders on calibrated thresholds, not proved')
 LEVEL_NOTE = c01.LEVEL_NOTE + '; thresholds of the audio oracles (tools/props/C09_calib.json)'
 TECHNIQUE = ('Lean 4 theorems over the decoder control skeleton / PLC gain recursions / range-decoder model + regenerated constants '
@@ -93,6 +93,21 @@ def classify(ctx, tie, mm):
             if grew or (loss_cnt >= 1 and rs1 > rs0) or rs1 < 0:
                 return {'suite': tie.name, 'input': inp, 'expected': mm.get('model'), 'observed': impl,
                         'why': 'SILK concealment gain scalars do not shrink: taps %s grew, rand_scale %d -> %d' % (grew, rs0, rs1)}
+        elif t[1] == 'celtplc':
+            ld0, skip0, start = int(t[2]), int(t[3]), int(t[4])
+            m = re.match(r'kind=(\w+) ld=(-?\d+) skip=(\d)', impl)
+            kind, ld1, skip1 = m.group(1), int(m.group(2)), int(m.group(3))
+            should_noise = ld0 >= 40 or start != 0 or skip0 != 0
+            if (kind == 'noise') != should_noise or ld1 > 10000 or ld1 < ld0 or (kind == 'noise' and not skip1):
+                return {'suite': tie.name, 'input': inp, 'expected': mm.get('model'), 'observed': impl,
+                        'why': 'CELT concealment kind / loss_duration / skip_plc contradict the stated rule (noise PLC iff '
+                               'loss_duration >= 40 or start band != 0 or skip_plc; counter in [previous, 10000])'}
+        elif t[1] == 'celtgood':
+            ld0 = int(t[2])
+            m = re.match(r'ld=(-?\d+) skip=(\d)', impl)
+            if int(m.group(1)) != 0 or (ld0 == 0 and int(m.group(2)) != 0):
+                return {'suite': tie.name, 'input': inp, 'expected': mm.get('model'), 'observed': impl,
+                        'why': 'a decoded CELT frame did not reset loss_duration / two consecutive ones did not re-enable the pitch PLC'}
         elif t[1] == 'lossdur':
             ld0, ld1 = int(t[2]), int(impl[3:])
             if ld1 > 10000 or ld1 < ld0:
@@ -151,14 +166,14 @@ def search(ctx):
     hc = c01.harness(ctx, 'c09_celtloss', 'san')
     args = ['run', str(ctx.seed + 3000), '400' if ctx.quick else '4000', 'quiet']
     rc, out, err = c01._run_search(hc, args, 3000)
-    m = re.search(r'# celtloss seed=\d+ decoders=\d+ cases=(\d+) witnesses=(\d+)', out)
+    m = re.search(r'# celtloss seed=\d+ decoders=\d+ cases=(\d+) witnesses=(\d+).*', out)
     if m:
         cases += int(m.group(1))
     for line in out.split('\n'):
         if line.startswith('W '):
             kind, what, inp = (line[2:].split(' | ') + ['', ''])[:3]
             kinds[kind] = kinds.get(kind, 0) + 1
-            wit.append({'suite': 'celt-loss-search', 'input': inp, 'expected': 'loss_duration in [previous, 10000], 0 after a decoded frame',
+            wit.append({'suite': 'celt-loss-search', 'input': inp, 'expected': 'loss_duration in [previous, 10000], 0 after a decoded frame; noise PLC iff loss_duration >= 40 or start band != 0 or skip_plc',
                         'observed': what, 'why': '%s (reproduce: %s %s)' % (kind, os.path.basename(hc), ' '.join(args))})
     if rc != 0 and not m:
         wit.append({'suite': 'celt-loss-search', 'input': ' '.join(args), 'expected': 'harness completes',
